@@ -348,3 +348,6 @@ def run(chk):
     for cls_name in ("Circle", "Ellipse", "Sphere", "Ellipsoid"):
         _curved(chk, shapes, cls_name)
     PS.c08_polytopes(chk, ld)
+    # _rescale contracts, centre setters and rounding-radius setters of the vertex-based classes (shared with C03)
+    from . import c03
+    c03.run(chk, bounded=False)
